@@ -71,7 +71,7 @@ def run_unit(unit, rng, ctx):
     U = gen.random_walk(rng, T, 1 if identical else N, max_step=float(rng.choice([0.05, 0.2])))
     if identical:
         U = rng.uniform(-2, 3, size=(1, N, 3)) + (U - U[:1])  # same motion, different start
-    dt = float(rng.choice([1e-15, 2e-15]))
+    dt = float(rng.choice([1e-15, 2e-15, 20 * 2.4188843265857e-17, float(10.0 ** rng.uniform(-16.5, -14))]))
     temp = float(rng.uniform(50, 1500))
     z = int(rng.integers(1, 4))
     dim = int(rng.integers(1, 4))
@@ -158,6 +158,18 @@ def run_unit(unit, rng, ctx):
     if Dcom > 1e-6 * D:
         ctx.check(close(Mk.tracer_diffusivity_center_of_mass(dimensions=dim), Dcom * k**2, 1e-7), f'{what}: cell x{k:.3f}: COM diffusivity did not scale by k^2', wit)
 
+    # ---- mean / std over a list of DIFFERENT runs (other cell volume, other temperature, other length): each run
+    # contributes its own conductivity (own density, own temperature) ------------------------------------
+    if unit['i'] % 3 == 1:
+        runs = [traj, Mk.trajectory, Mt_.trajectory]
+        D_runs = [D, D * k**2, D]
+        sig_runs = [sigma, QE**2 * z**2 * (D * k**2) * (dens / k**3) / (KB * temp), sigma / tq]
+        perm_ = [int(x) for x in rng.permutation(3)]
+        S_h = TrajectoryMetricsStd([runs[i_] for i_ in perm_])
+        gD, gS = S_h.tracer_diffusivity(dimensions=dim), S_h.tracer_conductivity(z_ion=z, dimensions=dim)
+        ctx.check(close(gD.nominal_value, np.mean(D_runs)) and abs(gD.std_dev - np.std(D_runs)) <= 1e-9 * max(np.mean(D_runs), 1e-300), f'{what}: TrajectoryMetricsStd.tracer_diffusivity over runs in different cells / temperatures is {gD!r}, mean/std of the runs is ({np.mean(D_runs)!r}, {np.std(D_runs)!r})', wit)
+        ctx.check(close(gS.nominal_value, np.mean(sig_runs)) and abs(gS.std_dev - np.std(sig_runs)) <= 1e-9 * max(np.mean(sig_runs), 1e-300), f'{what}: TrajectoryMetricsStd.tracer_conductivity over runs with cell scale {k:.3g} and temperature x{tq:.3f} (order {perm_}) is {gS!r}; mean/std of the runs\' own conductivities is ({np.mean(sig_runs)!r}, {np.std(sig_runs)!r})', wit)
+        ctx.count('std_variants_over_heterogeneous_runs')
     # ---- mean / std over sub-trajectories -------------------------------------------------------
     n_parts = int(rng.integers(2, 5))
     if T >= 4 * n_parts:
